@@ -5,14 +5,18 @@ import (
 	"encoding/json"
 	"fmt"
 	"reflect"
+	"runtime"
 	"sort"
 	"strings"
 
 	"github.com/jamf/regatta/storage/cluster"
+	"github.com/jamf/regatta/verifvp/vp"
+	"github.com/jamf/regatta/verifvp/vsync"
 	"github.com/lni/dragonboat/v4"
 
 	"verif/harness/evid"
 	"verif/harness/par"
+	"verif/harness/sched"
 )
 
 const shard = 7
@@ -78,6 +82,10 @@ type Case struct {
 	Seq    []int    `json:"seq,omitempty"`
 	Events []string `json:"events,omitempty"`
 	Desc   []string `json:"desc,omitempty"`
+	// concurrent part
+	Pre     int   `json:"pre,omitempty"`
+	Writers []int `json:"writers,omitempty"`
+	Choices []int `json:"choices,omitempty"`
 }
 
 type viol struct{ sig, detail string }
@@ -299,6 +307,158 @@ func runCluster(r *evid.Run, alpha []upd, nNodes, depth int, localAlpha []int) {
 	}
 }
 
+// (c) concurrent callers --------------------------------------------------------------------------
+
+func concIdx(alpha []upd) []int {
+	var idx []int
+	for i, u := range alpha {
+		if (u.Term == 1 && u.CCI == 1) || (u.Term == 2 && u.CCI == 2) || (u.Term == 3 && u.CCI == 3) || (u.Term == 3 && u.Leader == 0 && u.CCI == 1) {
+			idx = append(idx, i)
+		}
+	}
+	return idx[:5]
+}
+
+func concHooks() func() {
+	vp.Hook = func(label string) {
+		if t := sched.Cur(); t != nil {
+			t.Point(label)
+		}
+	}
+	vsync.AwaitHook = func(label string, ready func() bool) {
+		if t := sched.Cur(); t != nil {
+			t.Await(label, ready)
+			return
+		}
+		for !ready() { // not under the explorer: cannot happen in this part
+			runtime.Gosched()
+		}
+	}
+	return func() { vp.Hook, vsync.AwaitHook = nil, nil }
+}
+
+func concScenario(alpha []upd, idx []int, pre int, ws []int, obs *[]dragonboat.ShardView) (sched.Scenario, *cluster.VerifNode, dragonboat.ShardView) {
+	node := cluster.NewVerifNode()
+	*obs = nil
+	if pre >= 0 {
+		node.UpdateView([]dragonboat.ShardView{alpha[idx[pre]].view()})
+	}
+	start := node.ShardInfo(shard)
+	var sc sched.Scenario
+	for _, w := range ws {
+		u := alpha[idx[w]].view()
+		sc.Threads = append(sc.Threads, func(t *sched.T) {
+			t.Point("call-update")
+			node.UpdateView([]dragonboat.ShardView{u})
+		})
+	}
+	sc.Threads = append(sc.Threads, func(t *sched.T) {
+		for k := 0; k < 2; k++ {
+			t.Point("call-read")
+			*obs = append(*obs, node.ShardInfo(shard))
+		}
+	})
+	return sc, node, start
+}
+
+// runConcurrent: writers calling the real shardView.update at the same time as a reader, every
+// interleaving at statement granularity (the view's RWMutex is cooperative under the explorer).
+func runConcurrent(r *evid.Run, alpha []upd, idx []int) {
+	defer concHooks()()
+	bound := 2
+	writers := 2
+	if r.Thorough() {
+		bound = 4
+	}
+	// the writers' updates: a representative subset (lower/higher term, with/without leader, lower/higher config index)
+	idx = concIdx(alpha)
+	type prog struct {
+		pre  int   // index into idx, -1 = empty view
+		w    []int // one update list per writer: index into idx; a negative value -k-1 pairs idx[k] with the first update in one list
+		list bool
+	}
+	var progs []prog
+	for pre := -1; pre < len(idx); pre += 2 {
+		for a := 0; a < len(idx); a++ {
+			for b := a; b < len(idx); b++ {
+				progs = append(progs, prog{pre: pre, w: []int{a, b}})
+				if r.Thorough() {
+					for c := b; c < len(idx); c++ {
+						progs = append(progs, prog{pre: pre, w: []int{a, b, c}})
+					}
+				}
+			}
+		}
+	}
+	_ = writers
+	var execs, points int64
+	exhausted := true
+	for _, pg := range progs {
+		if r.Expired() {
+			r.Cap("deadline during the concurrent-callers part")
+			break
+		}
+		var node *cluster.VerifNode
+		var obs []dragonboat.ShardView
+		var start dragonboat.ShardView
+		all := map[upd]bool{}
+		var desc []string
+		if pg.pre >= 0 {
+			all[alpha[idx[pg.pre]]] = true
+			desc = append(desc, "view holds "+alpha[idx[pg.pre]].String())
+		}
+		for _, w := range pg.w {
+			all[alpha[idx[w]]] = true
+			desc = append(desc, "writer: update "+alpha[idx[w]].String())
+		}
+		mk := func() sched.Scenario {
+			var sc sched.Scenario
+			sc, node, start = concScenario(alpha, idx, pg.pre, pg.w, &obs)
+			return sc
+		}
+		ex := &sched.Explorer{Mk: mk, MaxBound: bound, Stop: r.Expired,
+			Check: func(x sched.Exec, _ *sched.Scenario) string {
+				cs := Case{Kind: "concurrent", Desc: desc, Events: x.Trace, Pre: pg.pre, Writers: pg.w, Choices: x.Choices}
+				if x.Diverged != "" {
+					r.Cap("concurrent callers: a replayed prefix diverged: " + x.Diverged)
+					return "diverged"
+				}
+				if x.Deadlock || x.Livelock || x.Panic != "" {
+					r.Violate("concurrent/execution-abnormal", fmt.Sprintf("deadlock=%v livelock=%v panic=%s | %s", x.Deadlock, x.Livelock, x.Panic, sched.TraceStr(x)), cs)
+					return "abnormal"
+				}
+				final := node.ShardInfo(shard)
+				for _, v := range checkView(final, all, "concurrent/final-") {
+					r.Violate(v.sig, v.detail+" | "+strings.Join(desc, "; ")+" | trace "+sched.TraceStr(x), cs)
+				}
+				prev := start
+				for _, o := range append(append([]dragonboat.ShardView{}, obs...), final) {
+					for _, v := range regress(prev, o, "concurrent/reader-sees-") {
+						r.Violate(v.sig, v.detail+" | "+strings.Join(desc, "; ")+" | trace "+sched.TraceStr(x), cs)
+					}
+					prev = o
+				}
+				out := fmt.Sprint(viewKey(final), len(obs))
+				for _, o := range obs {
+					out += "|" + viewKey(o)
+				}
+				r.Outcome(fmt.Sprint(pg)+out, len(all) > 1)
+				return out
+			}}
+		res := ex.Run()
+		execs += res.Executions
+		points += res.Points
+		if !res.Exhausted {
+			exhausted = false
+		}
+	}
+	r.Transitions.Add(points)
+	r.Extra("concurrent_scenarios", len(progs))
+	r.Extra("concurrent_executions", execs)
+	r.Extra("concurrent_preemption_bound", bound)
+	r.Extra("concurrent_space_exhausted_within_bound", exhausted)
+}
+
 func Run(r *evid.Run) {
 	r.Check = "c19"
 	alpha := alphabet()
@@ -306,7 +466,7 @@ func Run(r *evid.Run) {
 	if r.Thorough() {
 		depth = 5
 	}
-	r.Rule(fmt.Sprintf("(a) single node: every sequence (with repetition) of length 0..%d over %d updates consistent with a ground truth of terms 1..3 (one leader per term) and config indices 1..3 incl. no-leader and empty updates, fed to the real shardView one per call and all in one call; after every step the view must equal (leader of the highest leader-bearing term, membership of the highest config index) of the SET of updates delivered - hence order- and repetition-independent - and term/leader/config index never regress. (b) cluster: BFS over {node i observes a local Raft update (through the real toShardViewList/Notify), node i gossips to node j (real delegate LocalState -> JSON -> MergeRemoteState)} with a visited set on the tuple of complete views + local observations; same invariants per node against the set of causally delivered updates; agreement after all-pairs gossip from every new state. Non-trivial: sequence contains a leader-bearing update; distinct = distinct final views", depth, len(alpha)))
+	r.Rule(fmt.Sprintf("(a) single node: every sequence (with repetition) of length 0..%d over %d updates consistent with a ground truth of terms 1..3 (one leader per term) and config indices 1..3 incl. no-leader and empty updates, fed to the real shardView one per call and all in one call; after every step the view must equal (leader of the highest leader-bearing term, membership of the highest config index) of the SET of updates delivered - hence order- and repetition-independent - and term/leader/config index never regress. (b) cluster: BFS over {node i observes a local Raft update (through the real toShardViewList/Notify), node i gossips to node j (real delegate LocalState -> JSON -> MergeRemoteState)} with a visited set on the tuple of complete views + local observations; same invariants per node against the set of causally delivered updates; agreement after all-pairs gossip from every new state. (c) concurrent callers: a view holding nothing or one update, two (thorough: also three) writers each calling the real update() with one update of a 5-update subset (all unordered combinations) next to a reader that looks twice: every interleaving at statement granularity (points before every statement of update and shardInfo) up to 2 preemptions (thorough: 4), the view's RWMutex made cooperative by the build overlay; the final view must be the expected one of the set and the reader never sees term/leader/config index regress. Non-trivial: sequence contains a leader-bearing update; distinct = distinct final views", depth, len(alpha)))
 	total := par.SeqCount(len(alpha), depth)
 	par.For(total, r.Expired, func(i int64) {
 		seq := par.SeqAt(len(alpha), depth, i)
@@ -342,6 +502,7 @@ func Run(r *evid.Run) {
 		runCluster(r, alpha, 2, 5, localAlpha)
 		runCluster(r, alpha, 3, 4, localAlpha)
 	}
+	runConcurrent(r, alpha, localAlpha)
 	r.Sample(map[string]any{"single": []string{alpha[7].String(), alpha[1].String(), alpha[16].String()}, "cluster": []string{"node0 observes " + alpha[localAlpha[0]].String(), "node0 gossips to node1", "node1 observes " + alpha[localAlpha[3]].String()}})
 	r.Assume("ground truth has at most one leader per term (Raft) and one membership per configuration-change index; updates contradicting that are outside the property")
 	r.Assume("states = distinct tuples of complete per-node views (+ local observation); every transition executes the real update/merge code, so all traces are implementation traces")
@@ -359,6 +520,43 @@ func Replay(raw json.RawMessage) (string, bool) {
 			fmt.Fprintf(&sb, "%s: %s\n", v.sig, v.detail)
 		}
 		return sb.String(), len(vs) == 0
+	}
+	if c.Kind == "concurrent" {
+		defer concHooks()()
+		alpha := alphabet()
+		idx := concIdx(alpha)
+		var obs []dragonboat.ShardView
+		var node *cluster.VerifNode
+		var start dragonboat.ShardView
+		all := map[upd]bool{}
+		if c.Pre >= 0 {
+			all[alpha[idx[c.Pre]]] = true
+		}
+		for _, w := range c.Writers {
+			all[alpha[idx[w]]] = true
+		}
+		x, _ := sched.Replay(func() sched.Scenario {
+			var sc sched.Scenario
+			sc, node, start = concScenario(alpha, idx, c.Pre, c.Writers, &obs)
+			return sc
+		}, c.Choices, 10000)
+		var sb strings.Builder
+		fmt.Fprintf(&sb, "%s\ntrace: %s\n", strings.Join(c.Desc, "; "), sched.TraceStr(x))
+		ok := x.Diverged == "" && !x.Deadlock && !x.Livelock && x.Panic == ""
+		final := node.ShardInfo(shard)
+		for _, v := range checkView(final, all, "concurrent/final-") {
+			fmt.Fprintf(&sb, "%s: %s\n", v.sig, v.detail)
+			ok = false
+		}
+		prev := start
+		for _, o := range append(append([]dragonboat.ShardView{}, obs...), final) {
+			for _, v := range regress(prev, o, "concurrent/reader-sees-") {
+				fmt.Fprintf(&sb, "%s: %s\n", v.sig, v.detail)
+				ok = false
+			}
+			prev = o
+		}
+		return sb.String(), ok
 	}
 	return "cluster traces are replayed by re-running the BFS (deterministic); events: " + strings.Join(c.Events, "; ") + "\n", false
 }
